@@ -92,6 +92,7 @@ template<bool iomode> void CustomTabulated::read(std::istream &is){
             auto x = nodes[l].begin();
             for(auto &w : weights[l]) is >> w >> *x++;
         }
+        if (is.fail()) throw std::invalid_argument("ERROR: wrong file format of custom tables, the list of weights and nodes is incomplete");
     }else{
         int num_description = 0;
         is.read((char*) &num_description, sizeof(int));
